@@ -19,19 +19,12 @@ def MK.spanlike : MK → Bool
 
 theorem drainGs_ok (gs : List Gr) (s e : Nat) (hs : s ≤ e) (he : e ≤ gs.length) :
     drainGs gs s e = .ok (((gs.drop s).take (e - s)).flatten, gs.take s ++ gs.drop e) := by
-  unfold drainGs
-  by_cases hen : e = gs.length
-  · subst hen
-    by_cases hsn : s = gs.length
-    · subst hsn; simp
-    · have hlt : ¬ s > gs.length := by omega
-      simp only [↓reduceIte, hsn, hlt]
-      have : (gs.drop s).take (gs.length - s) = gs.drop s := by
-        apply List.take_of_length_le; simp
-      simp [this]
-  · have h1 : ¬ (s ≥ gs.length ∨ e > gs.length) := by omega
-    have h2 : ¬ s > e := by omega
-    simp [hen, h1, h2]
+  have h1 : min e gs.length = e := Nat.min_eq_left he
+  have h2 : min s e = s := Nat.min_eq_left hs
+  simp [drainGs, h1, h2]
+
+/-- `drain` never fails, whatever range it is given (stale block windows replayed by `.` included). -/
+theorem drainGs_total (gs : List Gr) (s e : Nat) : ∃ r, drainGs gs s e = .ok r := ⟨_, rfl⟩
 
 /-- **Delete / change**: exactly the span `s..e` is removed — the text outside it is preserved byte
 for byte — and exactly the removed text goes to the register. -/
